@@ -2,7 +2,7 @@
 """save_seed.py <ID> <name> <needs> <caught_by> <ran>   copies /tmp/mut/<ID>/mutant into /verif/seeded/<name>/ with meta.json"""
 import json, os, shutil, sys
 pid, name, needs, caught, ran = sys.argv[1:6]
-src = "/tmp/mut/%s/mutant" % pid
+src = "/tmp/%s/%s/mutant" % (os.environ.get("MUTROOT", "mut"), pid)
 dst = "/verif/seeded/%s" % name
 os.makedirs(dst, exist_ok=True)
 for f in os.listdir(src):
